@@ -205,7 +205,7 @@ def gen_client_call(rng, sh):
     if r < 0.3:
         return [C_BIND, msgs.g_text(rng), msgs.g_cred(rng), cs], "bind"
     if r < 0.6:
-        return [C_EXT, rng.choice([b"1.3.6.1.4.1.1466.20037", b"1.2.3"]), msgs.opt(None if rng.random() < 0.6 else msgs.g_octets(rng)), cs], "other"
+        return [C_EXT, rng.choice([b"1.3.6.1.4.1.1466.20037", b"1.2.3", b"1.2.3", msgs.OID_NOTICE]), msgs.opt(None if rng.random() < 0.6 else msgs.g_octets(rng)), cs], "other"
     op = msgs.g_op(rng, 3, depth=rng.choice([0, 1, 2]))
     return [C_SEARCH] + op[1:] + [cs], "search"
 
@@ -266,6 +266,11 @@ def corrupt(rng, data: bytes) -> bytes:
 def gen_server_call(rng, sh):
     mid = pick_id(rng, sh)
     cs = msgs.g_controls(rng) if rng.random() < 0.15 else []
+    if rng.random() < 0.07:
+        # the shape of an unsolicited notification (RFC 4511 4.4): id 0, the notice name, any result code
+        code = rng.choice([2, 8, 52, 80, 0, 1] + msgs.RFC_RC)
+        name = msgs.OID_NOTICE if rng.random() < 0.8 else b"1.2.3"
+        return [S_EXTRESP, rng.choice([0, 0, 0, mid]), msgs.opt(name), msgs.opt(None), code, msgs.g_text(rng), msgs.g_text(rng), cs]
     kind = sh.open.get(mid)
     r = rng.random()
     if kind == "search" and r < 0.7:
@@ -274,7 +279,7 @@ def gen_server_call(rng, sh):
         k = S_BINDRESP
     else:
         k = rng.choice([S_BINDRESP, S_EXTRESP, S_EXTRESP, S_ENTRY, S_REF, S_DONE])
-    code = rng.choice([0, 0, 0, 49, RC_SASL, 118])
+    code = rng.choice([0, 0, 0, 49, RC_SASL, 118]) if rng.random() < 0.7 else rng.choice(msgs.RFC_RC)
     if k == S_BINDRESP:
         return [k, mid, msgs.opt(None if rng.random() < 0.7 else msgs.g_octets(rng)), code, msgs.g_text(rng), msgs.g_text(rng), cs]
     if k == S_EXTRESP:
@@ -293,6 +298,12 @@ def gen_history(rng: random.Random, role=None, length=None, malformed=0.08, chun
     """Returns {"role", "calls", "meta"}; meta[i] for a RECV call = list of [id, opkind, rc, notice] of the
     well-formed messages the data consists of, or None when the data is not a clean sequence."""
     role = rng.randint(0, 1) if role is None else role
+    if length is None:
+        r0 = rng.random()
+        if r0 < 0.004:
+            return gen_long_history(rng, role)
+        if r0 < 0.012:
+            return gen_big_history(rng, role)
     sh = Shadow(role)
     n = rng.randint(1, 14) if length is None else length
     calls, meta = [], []
@@ -307,7 +318,7 @@ def gen_history(rng: random.Random, role=None, length=None, malformed=0.08, chun
             synced = True
             continue
         if r < 0.12:
-            a = rng.choice([None, None, 0, 1, 2, 5, 16, 1000, -1, -3])
+            a = rng.choice([None, None, 0, 1, 2, 5, 16, 1000, -1, -3, 65536, 70000])
             calls.append([DRAIN, msgs.opt(a)])
             meta.append(None)
         elif r < 0.17:
@@ -344,7 +355,7 @@ def gen_history(rng: random.Random, role=None, length=None, malformed=0.08, chun
                         sh.open[mid] = {0: "bind", 3: "search", 7: "other"}[op[0]]
                         sh.next_id = max(sh.next_id, mid + 1) if isinstance(mid, int) and mid < 2**20 else sh.next_id
             data = b"".join(msgs.pack(m) for m in ms)
-            mt = [[m[0], m[1][0], (m[1][1][0] if m[1][0] in (1, 5, 8) else None), bool(m[1][0] == 8 and m[1][2] == [msgs.OID_NOTICE])] for m in ms]
+            mt = _meta_of(ms)
             rr = rng.random()
             if pending_tail:
                 # the stream is already desynchronised by an undelivered tail
@@ -370,6 +381,153 @@ def gen_history(rng: random.Random, role=None, length=None, malformed=0.08, chun
             calls.append([RECV, data])
             meta.append(mt)
     return {"role": role, "calls": calls, "meta": meta}
+
+
+def _meta_of(ms):
+    return [[m[0], m[1][0], (m[1][1][0] if m[1][0] in (1, 5, 8) else None), bool(m[1][0] == 8 and m[1][2] == [msgs.OID_NOTICE])] for m in ms]
+
+
+def _ok_result():
+    return [0, b"", b"", []]
+
+
+def gen_long_history(rng, role, cycles=None):
+    """Hundreds of complete request/response cycles (ids well past 256, where small-int identity and one-byte
+    encodings stop), then a replay of ids that were retired long ago, then ordinary traffic."""
+    n = rng.randint(257, 330) if cycles is None else cycles
+    calls, meta = [], []
+    done_ids = []
+    i = 1
+    while i <= n:
+        b = min(rng.choice([1, 1, 2, 3]), n - i + 1)
+        ids = list(range(i, i + b))
+        kinds = [rng.choice(["other", "other", "search"]) for _ in ids]
+        if role == CLIENT:
+            for k in kinds:
+                if k == "search":
+                    calls.append([C_SEARCH, b"", 2, 0, 0, 0, 0, [7, b"objectClass"], [], []])
+                else:
+                    calls.append([C_EXT, b"1.2.3", [], []])
+                meta.append(None)
+            ms = []
+            for mid, k in zip(ids, kinds):
+                if k == "search":
+                    if rng.random() < 0.5:
+                        ms.append([mid, [4, b"cn=x", [[b"cn", [b"x"]]]], []])
+                    ms.append([mid, [5, _ok_result()], []])
+                else:
+                    ms.append([mid, [8, _ok_result(), [], []], []])
+            if rng.random() < 0.3:
+                rng.shuffle(ms)
+                ms = [m for m in ms if m[1][0] != 5] + [m for m in ms if m[1][0] == 5]
+            calls.append([RECV, b"".join(msgs.pack(m) for m in ms)])
+            meta.append(_meta_of(ms))
+        else:
+            ms = []
+            for mid, k in zip(ids, kinds):
+                if k == "search":
+                    ms.append([mid, [3, b"", 2, 0, 0, 0, False, [7, b"objectClass"], []], []])
+                else:
+                    ms.append([mid, [7, b"1.2.3", []], []])
+            calls.append([RECV, b"".join(msgs.pack(m) for m in ms)])
+            meta.append(_meta_of(ms))
+            for mid, k in zip(ids, kinds):
+                if k == "search":
+                    if rng.random() < 0.5:
+                        calls.append([S_ENTRY, mid, b"cn=x", [[b"cn", [b"x"]]], []])
+                        meta.append(None)
+                    calls.append([S_DONE, mid, 0, b"", b"", []])
+                else:
+                    calls.append([S_EXTRESP, mid, [], [], 0, b"", b"", []])
+                meta.append(None)
+            if rng.random() < 0.2:
+                calls.append([DRAIN, msgs.opt(rng.choice([None, 7, 100]))])
+                meta.append(None)
+        done_ids.extend(ids)
+        i += b
+    # replays of retired ids
+    for _ in range(rng.choice([1, 2, 3])):
+        mid = rng.choice([d for d in done_ids if d >= 257] or done_ids) if rng.random() < 0.75 else rng.choice(done_ids)
+        if role == CLIENT:
+            m = [mid, rng.choice([[8, _ok_result(), [], []], [5, _ok_result()], [4, b"cn=x", []]]), []]
+            calls.append([RECV, msgs.pack(m)])
+            meta.append(_meta_of([m]))
+        else:
+            calls.append(rng.choice([[S_EXTRESP, mid, [], [], 0, b"", b"", []], [S_DONE, mid, 0, b"", b"", []], [S_ENTRY, mid, b"cn=x", [], []]]))
+            meta.append(None)
+    # one more ordinary cycle and a drain: the session must still be consistent
+    nid = n + 1
+    if role == CLIENT:
+        calls.append([C_EXT, b"1.2.3", [], []])
+        meta.append(None)
+        m = [nid, [8, _ok_result(), [], []], []]
+        calls.append([RECV, msgs.pack(m)])
+        meta.append(_meta_of([m]))
+    else:
+        m = [nid, [7, b"1.2.3", []], []]
+        calls.append([RECV, msgs.pack(m)])
+        meta.append(_meta_of([m]))
+        calls.append([S_EXTRESP, nid, [], [], 0, b"", b"", []])
+        meta.append(None)
+    calls.append([DRAIN, msgs.opt(None)])
+    meta.append(None)
+    return {"role": role, "calls": calls, "meta": meta}
+
+
+def gen_big_history(rng, role):
+    """More than 64 KiB queued, handed out by partial drains, then refused and accepted sends: what is still
+    queued must be exactly the accepted messages minus what was handed out."""
+    size = rng.choice([65536, 70000, 131072 + 5])
+    big = bytes([rng.getrandbits(8)]) * size
+    first = rng.choice([65535, 65536, 65537, 70000, size, size + 10])
+    calls, meta = [], []
+
+    def add(c, m=None):
+        calls.append(c)
+        meta.append(m)
+
+    if role == SERVER:
+        m = [1, [3, b"", 2, 0, 0, 0, False, [7, b"objectClass"], []], []]
+        add([RECV, msgs.pack(m)], _meta_of([m]))
+        add([S_ENTRY, 1, b"cn=x", [[b"jpegPhoto", [big]]], []])
+        add([DRAIN, msgs.opt(first)])
+        if rng.random() < 0.5:
+            add([DRAIN, msgs.opt(rng.choice([1, 100, 0]))])
+        refused = [[S_EXTRESP, 99, [], [], 0, b"", b"", []], [S_DONE, 98, 0, b"", b"", []], [S_ENTRY, 5, b"cn=y", [], []],
+                   [S_BINDRESP, 7, [], 0, b"", b"", []], [S_EXTRESP, 0, [msgs.OID_NOTICE], [], 2, b"", b"", []]]
+        add(rng.choice(refused))
+        add([DRAIN, msgs.opt(rng.choice([None, 3, 65536]))])
+        add([S_ENTRY, 1, b"cn=z", [[b"cn", [b"z"]]], []])
+        add(rng.choice(refused))
+        add([S_DONE, 1, 0, b"", b"", []])
+        add([DRAIN, msgs.opt(None)])
+        add([DRAIN, msgs.opt(None)])
+    else:
+        add([C_EXT, b"1.2.3", [big], []])
+        add([DRAIN, msgs.opt(first)])
+        add([C_BIND, b"cn=a", [0, b"pw"], []])      # refused while an operation is outstanding
+        add([C_EXT, b"1.2.4", [b"abc"], []])
+        add([DRAIN, msgs.opt(rng.choice([None, 3, 65536]))])
+        add([C_SEARCH, b"", 2, 0, 0, 0, 0, [7, b"objectClass"], [], []])
+        add([DRAIN, msgs.opt(None)])
+        m = [1, [8, _ok_result(), [], []], []]
+        add([RECV, msgs.pack(m)], _meta_of([m]))
+        add([DRAIN, msgs.opt(None)])
+    return {"role": role, "calls": calls, "meta": meta}
+
+
+def boundary_histories(role=None):
+    """Fixed corpus run first by every session property."""
+    out = []
+    for r in (CLIENT, SERVER):
+        if role is not None and r != role:
+            continue
+        rng = random.Random(20261001 + r)
+        out.append(gen_long_history(rng, r, cycles=300))
+        out.append(gen_long_history(rng, r, cycles=258))
+        for _ in range(3):
+            out.append(gen_big_history(rng, r))
+    return out
 
 
 # ------------------------------------------------------------------ helpers for oracles
